@@ -89,6 +89,30 @@ fn mpq_seeds() -> Vec<seeds::Seed> {
             out.push(s);
         }
     }
+    // sector checksums: builder-made, and written by the independent writer with a checksum sector that is
+    // well-formed or lacks its last entries (12 and 24 sectors of constant / text data: the checksum sector is
+    // stored compressed, and a short one still decompresses to "about" the expected size)
+    for v in [1u8, 4] {
+        if let Some(s) = mk(&format!("v{v}-sector-crcs"), ArchiveSpec { version: v, shift: 0, crcs: true, attrs: Attrs::None, listfile: true, compress_tables: false, table_method: M_ZLIB, files: files(false) }) {
+            out.push(s);
+        }
+    }
+    for (sectors, class, drop) in [(12usize, ContentClass::Constant, 0usize), (12, ContentClass::Constant, 1), (24, ContentClass::Text, 1), (24, ContentClass::Constant, 2), (40, ContentClass::Constant, 3)] {
+        use vcheck::oracle::refmpq::{RefFile, RefSpec};
+        let spec = RefSpec {
+            v2: sectors == 24,
+            shift: 0,
+            hash_log2: 3,
+            lead_units: 0,
+            ghosts: vec![],
+            reverse: false,
+            files: vec![
+                RefFile { name: "d0\\f0.bin".into(), data_class: class, len: sectors * 512 - 7, seed: 5, method: 0x02, single_unit: false, encrypted: false, fix_key: false, gap: 0, crc: true },
+                RefFile { name: "d1\\f1.bin".into(), data_class: ContentClass::Text, len: 300, seed: 6, method: 0x02, single_unit: true, encrypted: false, fix_key: false, gap: 0, crc: false },
+            ],
+        };
+        out.push(seeds::Seed { format: "mpq", name: format!("ref-sector-crc-{sectors}sectors-{class:?}-short{drop}"), bytes: spec.write_malformed(drop) });
+    }
     // one archive whose (attributes) file carries CRC32|PATCH_BIT: written by hand and handed to the builder
     // as an external attributes file; the block count the reader will use (files + special files) is found
     // by trial: the first count for which `load_attributes` accepts the archive
